@@ -117,3 +117,24 @@ package reconciledloader
 //@   ensures allGood() && qinv(rl.remoteQueue)
 //@   ensures len(result0) > 0 ==> result1 == nil && isSumOf(linkCid(link), result0)
 //@   ensures old(rl.remoteQueue.head.link) != linkCid(link) ==> len(result0) == 0 && result1 != nil
+
+//@ -- C02: "load locally while below a link the remote did not follow". last = the path of the last link the remote
+//@ -- reported without walking below it (empty: none). A new load is still inside that unfollowed subtree exactly when
+//@ -- its path is strictly longer and starts with every segment of last.
+//@ pred below(last datamodel.Path, new datamodel.Path) := pathLen(last) > 0 && pathLen(last) < pathLen(new)
+//@    && (forall i int :: 0 <= i && i < pathLen(last) ==> pathSeg(last, i) == pathSeg(new, i))
+//@ func isStrictlyBelow
+//@   modifies nothing
+//@   loop 1 invariant forall k int :: 0 <= k && k < idx1 ==> pathSeg(ancestor, k) == pathSeg(path, k)
+//@   ensures result == (pathLen(ancestor) < pathLen(path) && (forall i int :: 0 <= i && i < pathLen(ancestor) ==> pathSeg(ancestor, i) == pathSeg(path, i)))
+//@ func pathTracker.stillOnUnfollowedRemotePath
+//@   requires pt != nil
+//@   modifies pt.lastUnfollowedRemotePath
+//@   ensures result == below(old(pt.lastUnfollowedRemotePath), newPath)
+//@   ensures result ==> pt.lastUnfollowedRemotePath == old(pt.lastUnfollowedRemotePath)
+//@   ensures !result ==> pathLen(pt.lastUnfollowedRemotePath) == 0
+//@ func pathTracker.recordRemoteLoadAttempt
+//@   requires pt != nil
+//@   modifies pt.lastUnfollowedRemotePath
+//@   ensures (action == graphsync.LinkActionPresent || action == graphsync.LinkActionDuplicateNotSent) ==> pt.lastUnfollowedRemotePath == old(pt.lastUnfollowedRemotePath)
+//@   ensures !(action == graphsync.LinkActionPresent || action == graphsync.LinkActionDuplicateNotSent) ==> pt.lastUnfollowedRemotePath == currentPath
